@@ -116,9 +116,83 @@ func init() {
 			return e.freshVal("sprint", strT)
 		},
 	}
+	for _, n := range []string{"sort.Strings", "sort.Ints", "sort.Slice", "sort.SliceStable", "slices.Sort", "slices.SortFunc",
+		"slices.SortStableFunc", "slices.Reverse", "math/rand.Shuffle", "github.com/thought-machine/please/src/fs.SortPaths"} {
+		name := n
+		stdModels[name] = func(e *Exec, st *State, a []Val, x *ast.CallExpr) Val {
+			return e.permuteInPlace(st, name, a, x)
+		}
+	}
 }
 
 func errorType() types.Type { return types.Universe.Lookup("error").Type() }
+
+// permuteInPlace is the assumed contract of the in-place reordering functions (sort.*, slices.Sort*,
+// slices.Reverse): the backing array of the first argument is overwritten with a permutation of itself
+// (same length, same multiset of elements — the multiset is an uninterpreted abstraction), and for the
+// sorting functions over strings/ints the result is ordered.
+func (e *Exec) permuteInPlace(st *State, name string, a []Val, x *ast.CallExpr) Val {
+	s := a[0]
+	if !isSlcSort(s.T.Sort) {
+		return Val{}
+	}
+	el := slcElem(s.T.Sort)
+	arr := e.sc.Fresh("permuted", ArraySort(SInt, el))
+	n := SlcLen(s.T)
+	ms := e.sc.Fun("multiset:"+el, []string{ArraySort(SInt, el), SInt}, SInt)
+	e.assume(st, Eq(App(SInt, ms, arr, n), App(SInt, ms, SlcArr(s.T), n)))
+	// membership is preserved both ways (what most callers rely on)
+	pos := e.sc.Fun(fmt.Sprintf("permpos!%d", e.sc.counter), []string{SInt}, SInt)
+	inv := e.sc.Fun(fmt.Sprintf("perminv!%d", e.sc.counter), []string{SInt}, SInt)
+	e.assume(st, T(SBool, fmt.Sprintf("(forall ((i Int)) (! (=> (and (<= 0 i) (< i %s)) (and (<= 0 (%s i)) (< (%s i) %s) (= (select %s i) (select %s (%s i))) (= (%s (%s i)) i))) :pattern ((select %s i))))",
+		n.S, pos, pos, n.S, arr.S, SlcArr(s.T).S, pos, inv, pos, arr.S)))
+	e.assume(st, T(SBool, fmt.Sprintf("(forall ((i Int)) (! (=> (and (<= 0 i) (< i %s)) (and (<= 0 (%s i)) (< (%s i) %s) (= (select %s i) (select %s (%s i))) (= (%s (%s i)) i))) :pattern ((select %s i))))",
+		n.S, inv, inv, n.S, SlcArr(s.T).S, arr.S, inv, pos, inv, SlcArr(s.T).S)))
+	switch name {
+	case "sort.Strings", "sort.Ints", "slices.Sort":
+		le := "<="
+		if el == SString {
+			le = "str.<="
+		}
+		e.assume(st, T(SBool, fmt.Sprintf("(forall ((i Int) (j Int)) (=> (and (<= 0 i) (< i j) (< j %s)) (%s (select %s i) (select %s j))))", n.S, le, arr.S, arr.S)))
+	}
+	if name == "slices.Reverse" {
+		e.assume(st, T(SBool, fmt.Sprintf("(forall ((i Int)) (! (=> (and (<= 0 i) (< i %s)) (= (select %s i) (select %s (- (- %s 1) i)))) :pattern ((select %s i))))", n.S, arr.S, SlcArr(s.T).S, n.S, arr.S)))
+	}
+	nv := Val{T: MkSlc(el, arr, n, SlcNN(s.T)), GT: s.GT, Orig: s.Orig}
+	e.recordSliceWrite(st, s, x.Pos())
+	if x != nil && len(x.Args) > 0 {
+		if e.isLvalue(x.Args[0]) {
+			e.store(st, x.Args[0], nv)
+		} else {
+			e.note("in-place reordering of a non-lvalue slice expression: effect on aliases not modelled")
+		}
+	}
+	// a comparison closure may be called any number of times
+	for _, v := range a[1:] {
+		if v.Fn != nil && v.Fn.Lit != nil {
+			assigned, heapW := e.assignedIn(v.Fn.Lit.Body)
+			e.havocVars(st, assigned, heapW, "comparison closure")
+		}
+	}
+	e.trust("in-place permutation contract of " + name)
+	return Val{}
+}
+
+func (e *Exec) isLvalue(x ast.Expr) bool {
+	switch y := ast.Unparen(x).(type) {
+	case *ast.Ident:
+		return y.Name != "_"
+	case *ast.SelectorExpr:
+		_, ok := e.info().Selections[y]
+		return ok && e.isLvalue(y.X) || ok
+	case *ast.IndexExpr:
+		return e.isLvalue(y.X)
+	case *ast.StarExpr:
+		return true
+	}
+	return false
+}
 
 func (e *Exec) call(st *State, x *ast.CallExpr) Val {
 	info := e.info()
@@ -164,6 +238,12 @@ func (e *Exec) call(st *State, x *ast.CallExpr) Val {
 			switch sel.Kind() {
 			case types.MethodVal:
 				fn := sel.Obj().(*types.Func)
+				if isNoEffect(fn.Origin().FullName()) {
+					for _, a := range x.Args {
+						e.ev(st, a)
+					}
+					return e.zeroResults(fn.Type().(*types.Signature))
+				}
 				recv := e.ev(st, f.X)
 				// walk embedded fields to the method's receiver
 				path := sel.Index()
@@ -547,8 +627,12 @@ func contractKey(fn *types.Func) (pkgPath, key string) {
 func (e *Exec) callFunc(st *State, fn *types.Func, recv *Val, args []Val, x *ast.CallExpr) Val {
 	name := fn.Origin().FullName()
 	sig := fn.Type().(*types.Signature)
+	e.callsiteChecks(st, fn, recv, args, x)
 	if isNoEffect(name) {
 		return e.zeroResults(sig)
+	}
+	if isWalk(name) && len(args) == 2 && args[1].Fn != nil && args[1].Fn.Lit != nil && x != nil {
+		return e.walkModel(st, name, sig, args, x)
 	}
 	if isFatal(name) {
 		f := e.top()
@@ -602,17 +686,62 @@ func shortName(pkgPath string) string {
 	return pkgPath
 }
 
+// hasRefArg reports whether a callee outside the repository could reach the repository's heap through one
+// of its arguments: a reference to a type declared in the repository, or an unknown function value.
+// (Closures literals are analysed separately; interfaces and pointers of library types are assumed not to
+// lead back into repository state — recorded as a trusted assumption.)
 func hasRefArg(args []Val) bool {
 	for _, a := range args {
 		if a.GT == nil {
 			continue
 		}
-		switch a.GT.Underlying().(type) {
-		case *types.Pointer, *types.Map, *types.Signature, *types.Interface, *types.Chan:
+		if a.Fn != nil && a.Fn.Lit != nil {
+			continue
+		}
+		if typeTouchesRepo(a.GT, 0) {
 			return true
 		}
 	}
 	return false
+}
+
+func typeTouchesRepo(t types.Type, depth int) bool {
+	if depth > 6 || t == nil {
+		return false
+	}
+	switch u := types.Unalias(t).(type) {
+	case *types.Named:
+		inRepo := u.Obj().Pkg() != nil && strings.Contains(u.Obj().Pkg().Path(), "thought-machine/please")
+		switch un := u.Underlying().(type) {
+		case *types.Struct:
+			return false // passed by value
+		case *types.Interface:
+			return inRepo
+		default:
+			return typeTouchesRepo(un, depth+1)
+		}
+	case *types.Pointer:
+		return refElemTouchesRepo(u.Elem(), depth+1)
+	case *types.Map:
+		return refElemTouchesRepo(u.Elem(), depth+1) || refElemTouchesRepo(u.Key(), depth+1)
+	case *types.Slice:
+		return typeTouchesRepo(u.Elem(), depth+1)
+	case *types.Chan:
+		return refElemTouchesRepo(u.Elem(), depth+1)
+	case *types.Signature:
+		return true
+	case *types.Interface:
+		return false
+	}
+	return false
+}
+
+// refElemTouchesRepo: the pointee itself is mutable, so a repository struct behind a reference counts.
+func refElemTouchesRepo(t types.Type, depth int) bool {
+	if n, ok := types.Unalias(t).(*types.Named); ok && n.Obj().Pkg() != nil && strings.Contains(n.Obj().Pkg().Path(), "thought-machine/please") {
+		return true
+	}
+	return typeTouchesRepo(t, depth)
 }
 
 func (e *Exec) zeroResults(sig *types.Signature) Val {
@@ -647,6 +776,14 @@ func (e *Exec) freshResults(hint string, sig *types.Signature) Val {
 // could reach them.
 func (e *Exec) opaqueCall(st *State, name string, sig *types.Signature, args []Val, havoc bool) Val {
 	e.note("opaque call: " + name)
+	// closures handed to an unknown callee may run any number of times
+	for _, a := range args {
+		if a.Fn != nil && a.Fn.Lit != nil {
+			assigned, heapW := e.assignedIn(a.Fn.Lit.Body)
+			e.havocVars(st, assigned, heapW, "closure passed to opaque call "+name)
+			havoc = true
+		}
+	}
 	if havoc {
 		e.havocHeaps(st, "opaque call "+name)
 	}
